@@ -168,7 +168,8 @@ def build(node, env=None, path='r'):
         allowed = set(node['reprs'])
         return done(ds.filter(env.fn(path, lambda x: repr(x) in allowed)))
     if op == 'boomset':
-        return done(ds.map(env.fn(path, functools.partial(progs.f_boomset, node['fail'], node['fn']))))
+        return done(ds.map(env.fn(path, functools.partial(progs.f_boomset, node['fail'], node['fn'],
+                                                          noargs=node.get('noargs', False)))))
     if op == 'predraise':
         return done(ds.map(env.fn(path, functools.partial(progs.f_predraise, node['m'], node['r']))))
     if op == 'frag':
